@@ -5,9 +5,13 @@ sys.path.insert(0, os.path.dirname(os.path.abspath(__file__)))
 import props, manifest_meta as mm
 
 ALL = ["C%02d" % i for i in range(1, 21)]
+EXCL = set()
+for a in sys.argv[1:]:
+    if a.startswith("--exclude="):
+        EXCL = set(a.split("=", 1)[1].split(","))
 checks = []
 for pid in ALL:
-    if pid not in props.PROPS:
+    if pid not in props.PROPS or pid in EXCL:
         continue
     m = mm.META.get(pid) or props.EXTRA_META.get(pid)
     checks.append({
@@ -21,7 +25,7 @@ for pid in ALL:
         "level_note": m["note"],
         "technique": m.get("technique", "Coq 8.16 theorems over a hand-written executable Gallina model; model tied to the Go code by a differential correspondence check evaluated inside coqc (vm_compute)"),
     })
-na = [{"property_id": pid, "reason": mm.NOT_YET.get(pid, "check not built yet in this round; no claim made")} for pid in ALL if pid not in props.PROPS]
+na = [{"property_id": pid, "reason": mm.NOT_YET.get(pid, "check not built yet in this round; no claim made")} for pid in ALL if pid not in props.PROPS or pid in EXCL]
 man = {
     "version": 1,
     "setup_cmd": "./setup.sh",
